@@ -10,6 +10,12 @@
      S <items> <calls>       items = A/Q/T lines with TAB written as 0x1d, joined by 0x1e;
                              call = item:a:b:sahex:sbhex:sel, comma separated
      C <checked 0/1> <message hex>
+     L <type name hex> <type> <src> <steps (those of A, ov = `w = v;`, oc = `w = idf(v);`)> <final> <arms> <values joined by ';'>
+       <initial value of w: varianthex:payload> [<erase 0/1>]
+         type (prefix tokens separated by blanks): I | S | R | O t | G n1hex t n2hex | E t e | U n1hex a n2hex b n3hex c n4hex
+         value (prefix tokens): i<decimal> | s<hex> | r<k> followed by k scalar tokens | e<varianthex> - | e<varianthex> + value
+     LT <checked 0/1> <expr as in T> <operands joined by ';', each a:b:sahex:sbhex>
+     LQ <R|O> <ctx> <c|v> <outcomes, comma separated: k<decimal> (Ok / Some) | f<payload> (Err / None)>
    payload = N | I<decimal> | S<hex>; lists are comma separated, "-" = empty.
    Output for A/Q/T: three lines  M <exit> <events joined by 0x1f> / S ... / F <safe 0/1>;
    for C one line  <variant>|<has>|<int>|<string channel>. *)
@@ -191,6 +197,53 @@ let shows tag (r : sresult) =
   print_string tag; print_char '\t'; print_string (exit_s r.sr_exit); print_char '\t';
   print_endline (String.concat "\x1f" (List.map sev_s r.sr_events))
 
+
+(* ---- nested payloads / loops (ModelNest.v) ---- *)
+let toks s = List.filter (fun x -> x <> "") (split ' ' s)
+let rest_of t = String.sub t 1 (String.length t - 1)
+let parse_nty (ts : string list) : nty =
+  let rest = ref ts in
+  let next () = match !rest with t :: r -> rest := r; t | [] -> failwith "nty: eof" in
+  let rec go () =
+    match next () with
+    | "I" -> TInt | "S" -> TStr | "R" -> TRec
+    | "O" -> let t = go () in TOpt t
+    | "G" -> let n1 = unhex (next ()) in let t = go () in let n2 = unhex (next ()) in TGen (n1, t, n2)
+    | "E" -> let t = go () in let e = go () in TRes (t, e)
+    | "U" -> let n1 = unhex (next ()) in let a = go () in let n2 = unhex (next ()) in let b = go () in
+             let n3 = unhex (next ()) in let c = go () in let n4 = unhex (next ()) in TUsr (n1, a, n2, b, n3, c, n4)
+    | t -> failwith ("nty token " ^ t) in
+  go ()
+let parse_nval (ts : string list) : nval =
+  let rest = ref ts in
+  let next () = match !rest with t :: r -> rest := r; t | [] -> failwith "nval: eof" in
+  let scal t = if t.[0] = 'i' then SInt (z_of_string (rest_of t)) else SStr (unhex (rest_of t)) in
+  let rec go () =
+    let t = next () in
+    match t.[0] with
+    | 'i' -> VI (z_of_string (rest_of t))
+    | 's' -> VS (unhex (rest_of t))
+    | 'r' -> let k = int_of_string (rest_of t) in VR (List.init k (fun _ -> scal (next ())))
+    | 'e' -> let v = unhex (rest_of t) in
+             (match next () with "-" -> VE (v, None) | "+" -> let p = go () in VE (v, Some p) | x -> failwith ("nval " ^ x))
+    | _ -> failwith ("nval token " ^ t) in
+  go ()
+let scal_s = function SInt z -> z_to_string z | SStr s -> implode s
+let leaf_s = function
+  | LfNo -> "" | LfInt z -> " " ^ z_to_string z | LfStr s -> " " ^ implode s
+  | LfRec fs -> String.concat "" (List.map (fun f -> " " ^ scal_s f) fs)
+let nev_s = function
+  | NEIter k -> "it " ^ string_of_int (int_of_nat k)
+  | NEArm (path, l) -> "arm " ^ String.concat " in " (List.map (fun n -> string_of_int (int_of_nat n)) path) ^ leaf_s l
+  | NEVariant s -> implode s
+  | NEPost (k, l) -> "post " ^ string_of_int (int_of_nat k) ^ leaf_s l
+  | NEAfter -> "after"
+  | NEBack k -> "back " ^ string_of_int (int_of_nat k)
+  | NEDone -> "done"
+let shown tag (r : nresult) =
+  print_string tag; print_char '\t'; print_string (exit_s r.nr_exit); print_char '\t';
+  print_endline (String.concat "\x1f" (List.map nev_s r.nr_events))
+
 let () =
   try
     while true do
@@ -248,6 +301,31 @@ let () =
                      ps_calls = List.map call (list_field calls) } in
           shows "M" (m_run_s ps); shows "S" (s_run_s ps);
           print_endline ("F\t" ^ flag (safe_s ps))
+      | "L" :: bi :: ty :: src :: steps :: fin :: arms :: vals :: winit :: opt ->
+          let lstep_of = function "ov" -> LOutVar | "oc" -> LOutCall | x -> LS (step_of x) in
+          let pl = { pl_builtin = builtin_of_name (unhex bi); pl_ty = parse_nty (toks ty); pl_src = src_of src;
+                     pl_steps = List.map lstep_of (list_field steps); pl_final = final_of fin;
+                     pl_arms = List.map arm_of (list_field arms);
+                     pl_vals = List.map (fun v -> parse_nval (toks v)) (semi_field vals); pl_winit = cv winit } in
+          let erase = (match opt with ["0"] -> false | _ -> true) in
+          shown "M" (m_run_l_with erase pl); shown "S" (s_run_l pl);
+          (* F <safe> <one name bound to one kind only 0/1>: the kinds every binding path receives, execution by execution *)
+          let kinds = List.concat (l_kinds pl) in
+          let consistent = List.for_all (fun (pa, k) -> List.for_all (fun (pb, k') -> pa <> pb || k = k') kinds) kinds in
+          print_endline ("F\t" ^ flag (safe_l pl) ^ "\t" ^ flag consistent)
+      | ["LT"; ch; e; ops] ->
+          let op s = match split ':' s with
+            | [a; b; sa; sb] -> { lo_a = z_of_string a; lo_b = z_of_string b; lo_sa = unhex sa; lo_sb = unhex sb }
+            | _ -> failwith ("bad lops " ^ s) in
+          let pt = { lt_checked = (ch = "1"); lt_expr = parse_texpr (toks e); lt_ops = List.map op (semi_field ops) } in
+          shown "M" (m_run_lt pt); shown "S" (s_run_lt pt);
+          print_endline ("F\t" ^ flag (safe_lt pt))
+      | ["LQ"; k; ctx; opnd; outs] ->
+          let out s = if s.[0] = 'k' then QOOk (z_of_string (rest_of s)) else QOFail (payload_of (rest_of s)) in
+          let pq = { lq_kind = (if k = "R" then KResult else KOption); lq_ctx = qctx_of ctx;
+                     lq_opnd = (if opnd = "v" then OpVar else OpCall); lq_outs = List.map out (list_field outs) } in
+          shown "M" (m_run_lq pq); shown "S" (s_run_lq pq);
+          print_endline ("F\t" ^ flag (safe_lq pq))
       | ["C"; ch; mh] ->
           let sv = build_err (unhex mh) (ch = "1") in
           Printf.printf "%s|%d|%s|%s\n" (implode sv.s_variant) (if sv.s_has then 1 else 0)
